@@ -23,6 +23,9 @@ def run(cap):
         core = int(o.get("ny_sol", 8))
         if max(legs) >= 2 * core:
             cls += "|longleg"
+        four = [o.get(k) for k in ("ny_inner_lower_divertor", "ny_outer_lower_divertor", "ny_inner_upper_divertor", "ny_outer_upper_divertor")]
+        if all(v is not None for v in four) and len(set(four)) == 4:
+            cls += "|4 different legs"
     nx, nyf = nc["Rxy"].shape
 
     # ---- (i) structure in memory ----------------------------------------------------
